@@ -153,8 +153,9 @@ RUN_HEADER = ("import Mouette.Generated.C15Feat\nset_option linter.unusedVariabl
               "open Mouette.PySrc Mouette.Features Mouette.FeatSource Mouette.SurfSource\n\n")
 RUN_FALLBACK = """/- the translator refused the current source: stubs (the theorems of Props/C15Source do not hold for them) -/
 def clear : (List Nat × List Nat × DegMap × LocDict) := ([0], [0], [], [])
-def run (env : FeatEnv) (v2e : Nat → List Nat) (onlyBorder : Bool) (featV0 featE0 : Option BoolMap) :
-    (List Nat × List Nat × DegMap × LocDict × BoolMap × BoolMap) := ([0], [0], [], [], [], [])
+def run (env : FeatEnv) (v2e : Nat → List Nat) (onlyBorder : Bool) (featV0 featE0 : Option BoolMap) (flagC : Bool) (cenv : CornerEnv)
+    (twoPi : Rat) (order : Nat) (p0_corners cornersMesh : IntMap) :
+    (List Nat × List Nat × DegMap × LocDict × BoolMap × BoolMap × IntMap) := ([0], [0], [], [], [], [], [(0, 7)])
 """
 
 
@@ -253,7 +254,15 @@ def _self_clear(c, b, env, nxt, ind, exits):
             f"(List Nat × List Nat × DegMap × LocDict) := clear\n") + nxt(env2)
 
 
+def _flag_corners_call(c, b, env, nxt, ind, exits):
+    """`self._flag_corners(mesh)`: the translated `_flag_corners` on the feature vertices found so far; it rebinds `self.corners` to the
+    mesh attribute `corners` (its content before the call is `cornersMesh`)"""
+    if env.get("p0.feature_vertices") != "List Nat" or env.get("p0.corners") != "IntMap": raise c.err("unsupported call of _flag_corners")
+    return f"{ind}let p0_corners : IntMap := flagCorners cenv twoPi order p0_feature_vertices cornersMesh\n" + nxt(env)
+
+
 RUN_EXPRS = [
+    ("self.flag_corners", "flagC", "Bool"),
     ("set()", "([] : List Nat)", "List Nat"),
     ("Attribute(int)", "([] : DegMap)", "DegMap"),
     ("dict()", "([] : LocDict)", "LocDict"),
@@ -276,7 +285,6 @@ RUN_METHODS = {"List": {"add": "setAdd {x} {a}"}}
 # statements of run() that are recognised and left out of the translated text (they must be there, in this shape)
 RUN_REQUIRED = [
     "if mesh.faces.has_attribute('normals'):\n    self.fnormals = mesh.faces.get_attribute('normals')\nelse:\n    self.fnormals = face_normals(mesh, persistent=False)",
-    "if self.flag_corners:\n    self._flag_corners(mesh)",
     "if self.compute_feature_graph:\n    self._compute_feature_graph(mesh)\n    if self.flag_corners:\n        self._compute_corner_point_cloud(mesh)",
 ]
 
@@ -301,16 +309,21 @@ def run_defs():
         if sum(1 for st in stripped.body if ast.unparse(st) == want) != 1:
             raise TranslateError(f"run: the statement `{req.splitlines()[0]} …` is not there (once, at top level, in the expected shape)")
     v = PL.Vocab(["self", "mesh"], [None, None], exprs=RUN_EXPRS, subs=RUN_SUBS, methods=RUN_METHODS, empties=["List Nat"],
-                 stmts=[("self.clear()", _self_clear), ("self.local_feat_edges[M_k].append(M_i)", _loc_append), ("M_x.clear()", _bool_clear)],
+                 stmts=[("self.clear()", _self_clear), ("self.local_feat_edges[M_k].append(M_i)", _loc_append), ("M_x.clear()", _bool_clear),
+                        ("self._flag_corners(mesh)", _flag_corners_call)],
+                 init_env={"self.corners": "IntMap"},
                  drop=RUN_REQUIRED,
-                 ctx="(env : FeatEnv) (v2e : Nat → List Nat) (onlyBorder : Bool) (featV0 featE0 : Option BoolMap)", ctxargs="env v2e onlyBorder featV0 featE0",
-                 ret="(List Nat × List Nat × DegMap × LocDict × BoolMap × BoolMap)",
-                 fall="(p0_feature_vertices, p0_feature_edges, p0_feature_degrees, p0_local_feat_edges, v0, v1)")
+                 ctx=("(env : FeatEnv) (v2e : Nat → List Nat) (onlyBorder : Bool) (featV0 featE0 : Option BoolMap) (flagC : Bool) (cenv : CornerEnv) "
+                      "(twoPi : Rat) (order : Nat) (p0_corners cornersMesh : IntMap)"),
+                 ctxargs="env v2e onlyBorder featV0 featE0 flagC cenv twoPi order p0_corners cornersMesh",
+                 ret="(List Nat × List Nat × DegMap × LocDict × BoolMap × BoolMap × IntMap)",
+                 fall="(p0_feature_vertices, p0_feature_edges, p0_feature_degrees, p0_local_feat_edges, v0, v1, p0_corners)")
     v.iters = {"BoolMap": ("(boolKeys {x})", "Nat")}
+    v.effects = [("self._flag_corners(mesh)", ["self.corners"])]
     v.drop_calls = ["self.log"]
     out.append(PL.compile_function("run", fn, v,
                                    "`FeatureEdgeDetector.run`: (`feature_vertices`, `feature_edges`, `feature_degrees`, `local_feat_edges`, vertex attribute "
-                                   "`feature`, edge attribute `feature`) at the end; the normals branch, `_flag_corners` and the feature-graph outputs are "
+                                   "`feature`, edge attribute `feature`, `corners`) at the end; the normals branch and the feature-graph outputs are "
                                    "recognised and left out (they write none of these)"))
     return "\n".join(out)
 
